@@ -272,3 +272,23 @@ def default_values():
     for i in range(4):
         alt.update({"gamma%d" % i: 0.25, "l%d" % i: 3.0, "c%d" % i: 2.0, "d%d" % i: -0.5})
     return [base, alt]
+
+
+def safe_solve(env, pep, tag, **kw):
+    """pep.solve(...) where an exception of the real code becomes a failed claim (signature <tag>:raises-<Type>[:where]).
+    -> (value, error kind or None)"""
+    import traceback
+    from . import engine as E
+    try:
+        return pep.solve(**kw), None
+    except Exception as ex:
+        if isinstance(ex, E.Abort) or type(ex).__name__ == 'ReplayMismatch':
+            raise
+        tb = traceback.extract_tb(ex.__traceback__)
+        where = "%s:%s" % (os.path.basename(tb[-1].filename), tb[-1].name)
+        sig = "%s:raises-%s:%s" % (tag, type(ex).__name__, where)
+        env.check(False, "PEP.solve(%s) raised %s: %s (in %s, line: %s)" % (
+            ", ".join("%s=%r" % (k, v) for k, v in kw.items() if k in ('wrapper', 'return_primal_or_dual',
+                                                                      'dimension_reduction_heuristic')),
+            type(ex).__name__, str(ex)[:160], where, tb[-1].line), signature=sig)
+        return None, sig
